@@ -103,10 +103,20 @@ type SpecDB struct {
 	Order     []string // declaration order of ufun/define names
 	Files     []string
 	SortAlias map[string][2]string // name -> (Go type expression, package path)
+	Ghosts    map[string][2]string // ghost variable -> (sort name, package path)
+	Guards    []*Guard
+}
+
+// Guard: the fields of a struct that may only be accessed while its mutex is held.
+type Guard struct {
+	PkgPath string
+	Struct  string
+	Mutex   string
+	Fields  map[string]bool
 }
 
 func NewSpecDB() *SpecDB {
-	return &SpecDB{Contracts: map[string]*Contract{}, UFuns: map[string]*UFun{}, Defines: map[string]*Define{}, SortAlias: map[string][2]string{}}
+	return &SpecDB{Contracts: map[string]*Contract{}, UFuns: map[string]*UFun{}, Defines: map[string]*Define{}, SortAlias: map[string][2]string{}, Ghosts: map[string][2]string{}}
 }
 
 var (
@@ -188,6 +198,26 @@ func (db *SpecDB) LoadContractFile(path, defaultPkg string) error {
 		switch kw {
 		case "pkg":
 			pkg = rest
+			cur = nil
+		case "ghost":
+			f := strings.Fields(rest)
+			if len(f) != 2 {
+				return fail(l.n, "bad ghost declaration %q", rest)
+			}
+			db.Ghosts[f[0]] = [2]string{f[1], pkg}
+			cur = nil
+		case "guarded":
+			// guarded <Struct> <mutexField>: f1 f2 ...
+			kv := strings.SplitN(rest, ":", 2)
+			f := strings.Fields(kv[0])
+			if len(kv) != 2 || len(f) != 2 {
+				return fail(l.n, "bad guarded declaration %q", rest)
+			}
+			gd := &Guard{PkgPath: pkg, Struct: f[0], Mutex: f[1], Fields: map[string]bool{}}
+			for _, x := range strings.Fields(kv[1]) {
+				gd.Fields[x] = true
+			}
+			db.Guards = append(db.Guards, gd)
 			cur = nil
 		case "sort":
 			kv := strings.SplitN(rest, "=", 2)
